@@ -771,6 +771,10 @@ func (ds *AnySource) writeControlStart(config *WriteControlConfig) error {
 			filename := fmt.Sprintf(filenamePattern, dsp.Name, "ljh3")
 			dsp.DataPublisher.SetLJH3(i, timebase, nrows, ncols, ds.subframeDivisions,
 				ds.subframeOffsets[i], filename)
+			// SetLJH3 takes no row/column arguments; without these the header of every
+			// LJH3 file said Row 0, Column 0 whatever the channel.
+			dsp.DataPublisher.LJH3.Row = rowNum
+			dsp.DataPublisher.LJH3.Column = colNum
 		}
 	}
 	return ds.writingState.Start(filenamePattern, path, config)
